@@ -369,6 +369,92 @@ class _Renamer(ast.NodeTransformer):
         return node
 
 
+# ---------------------------------------------------------------------------------------------- moved definitions
+def _self_used(fn) -> bool:
+    return any(isinstance(x, ast.Name) and x.id == "self" for b in fn.body for x in ast.walk(b))
+
+
+def move_back(tree: ast.Module, ref: dict, notes: list) -> ast.Module:
+    """A private method that became a module-level function of the same name (or the reverse, also as a staticmethod) is put
+    back where the reference has it; calls are re-spelled (`f(x)` <-> `self.f(x)`). Only when the moved body does not use `self`."""
+    mod_funcs = {st.name: st for st in tree.body if isinstance(st, (ast.FunctionDef, ast.AsyncFunctionDef))}
+    classes = {st.name: st for st in tree.body if isinstance(st, ast.ClassDef)}
+    # (1) method in the reference, module-level function now
+    for cname, rc in ref.get("classes", {}).items():
+        cls = classes.get(cname)
+        if cls is None:
+            continue
+        have = {m.name for m in cls.body if isinstance(m, (ast.FunctionDef, ast.AsyncFunctionDef))}
+        for mname in rc["methods"]:
+            if not _is_private(mname) or mname in have or mname in ref.get("names", {}):
+                continue
+            fn = mod_funcs.get(mname)
+            if fn is None or (fn.args.args and fn.args.args[0].arg in ("self", "cls")):
+                continue
+            users = [c for c in classes.values() if any(isinstance(x, ast.Call) and isinstance(x.func, ast.Name) and x.func.id == mname for x in ast.walk(c))]
+            outside = any(isinstance(x, ast.Name) and x.id == mname for st in tree.body if not isinstance(st, ast.ClassDef) and st is not fn for x in ast.walk(st))
+            if users != [cls] or outside:
+                continue
+            tree.body.remove(fn)
+            fn.args.args.insert(0, ast.arg(arg="self"))
+            cls.body.append(fn)
+
+            class R(ast.NodeTransformer):
+                def visit_Name(s2, node):
+                    if node.id == mname and isinstance(node.ctx, ast.Load):
+                        return ast.copy_location(ast.Attribute(value=ast.Name(id="self", ctx=ast.Load()), attr=mname, ctx=ast.Load()), node)
+                    return node
+
+            for m in cls.body:
+                if isinstance(m, (ast.FunctionDef, ast.AsyncFunctionDef)) and m is not fn:
+                    R().visit(m)
+            notes.append(f"moved {mname} back into {cname}")
+            mod_funcs.pop(mname, None)
+    # (2) module-level function in the reference, (static)method now
+    for fname, kind in ref.get("kinds", {}).items():
+        if kind != "func" or not _is_private(fname) or fname in mod_funcs:
+            continue
+        holders = [(c, m) for c in classes.values() for m in c.body if isinstance(m, (ast.FunctionDef, ast.AsyncFunctionDef)) and m.name == fname]
+        if len(holders) != 1:
+            continue
+        cls, fn = holders[0]
+        if fname in ref.get("classes", {}).get(cls.name, {}).get("methods", {}):
+            continue
+        is_static = any(_dotted(d) == "staticmethod" for d in fn.decorator_list)
+        if not is_static:
+            if not fn.args.args or fn.args.args[0].arg != "self" or _self_used(fn):
+                continue
+            fn.args.args.pop(0)
+        fn.decorator_list = [d for d in fn.decorator_list if _dotted(d) != "staticmethod"]
+        cls.body.remove(fn)
+        if not cls.body:
+            cls.body.append(ast.Pass())
+        tree.body.insert(tree.body.index(cls), fn)
+
+        class R2(ast.NodeTransformer):
+            def visit_Attribute(s2, node):
+                s2.generic_visit(node)
+                if node.attr == fname and isinstance(node.value, ast.Name) and node.value.id in ("self", "cls", cls.name) and isinstance(node.ctx, ast.Load):
+                    return ast.copy_location(ast.Name(id=fname, ctx=ast.Load()), node)
+                return node
+
+        R2().visit(tree)
+        notes.append(f"moved {cls.name}.{fname} back to module level")
+    # (3) staticmethod-ised private methods: `@staticmethod def _m(a)` that the reference has as a plain method -> plain method
+    for cname, rc in ref.get("classes", {}).items():
+        cls = classes.get(cname)
+        if cls is None:
+            continue
+        for m in cls.body:
+            if isinstance(m, (ast.FunctionDef, ast.AsyncFunctionDef)) and m.name in rc["methods"] and _is_private(m.name) and any(_dotted(d) == "staticmethod" for d in m.decorator_list):
+                if "params:%d" % (len(m.args.args) + len(m.args.kwonlyargs) + 1) in rc["methods"][m.name]:
+                    m.decorator_list = [d for d in m.decorator_list if _dotted(d) != "staticmethod"]
+                    m.args.args.insert(0, ast.arg(arg="self"))
+                    notes.append(f"{cname}.{m.name}: staticmethod -> method")
+    ast.fix_missing_locations(tree)
+    return tree
+
+
 # ---------------------------------------------------------------------------------------------- helper inlining
 def _strip_doc(body):
     if body and isinstance(body[0], ast.Expr) and isinstance(body[0].value, ast.Constant) and isinstance(body[0].value.value, str):
@@ -968,13 +1054,29 @@ class _Normalise(ast.NodeTransformer):
     def _fold_temp(st, nxt, rest):
         """`t = E` immediately followed by a simple statement that uses t exactly once, t not used afterwards, and nothing
         with a side effect evaluated before that use: the use is replaced by E (an 'explaining variable' is transparent)."""
-        if nxt is None or not isinstance(nxt, (ast.Expr, ast.Assign, ast.Return, ast.AugAssign, ast.AnnAssign)):
-            return None
         if isinstance(st, ast.Assign) and len(st.targets) == 1:
             tgt, val = st.targets[0], st.value
         elif isinstance(st, ast.AnnAssign) and st.value is not None:
             tgt, val = st.target, st.value
         else:
+            return None
+        if isinstance(nxt, ast.If) and isinstance(tgt, ast.Name) and isinstance(val, (ast.BoolOp, ast.Compare, ast.UnaryOp)) and not any(isinstance(x, (ast.Call, ast.Await, ast.NamedExpr)) for x in ast.walk(val)):
+            # a named condition: `ok = a and not b` / `if not ok:`  ->  `if not (a and not b):`
+            name = tgt.id
+            t = nxt.test
+            neg = 0
+            while isinstance(t, ast.UnaryOp) and isinstance(t.op, ast.Not):
+                t, neg = t.operand, neg + 1
+            later = [x for part in (nxt.body, nxt.orelse, rest) for s_ in part for x in ast.walk(s_) if isinstance(x, ast.Name) and x.id == name]
+            if isinstance(t, ast.Name) and t.id == name and not later:
+                new_test = val
+                for _ in range(neg):
+                    new_test = ast.UnaryOp(op=ast.Not(), operand=new_test)
+                nxt.test = ast.copy_location(new_test, nxt.test)
+                ast.fix_missing_locations(nxt)
+                return nxt
+            return None
+        if nxt is None or not isinstance(nxt, (ast.Expr, ast.Assign, ast.Return, ast.AugAssign, ast.AnnAssign)):
             return None
         if not isinstance(tgt, ast.Name) or not isinstance(val, (ast.ListComp, ast.GeneratorExp, ast.SetComp, ast.DictComp, ast.BinOp, ast.List, ast.Tuple, ast.Set)):
             return None  # only value-building expressions (collections / operators); calls keep their name
@@ -1266,6 +1368,52 @@ def _respell_imports(tree: ast.Module, modname: str, ref_imports: dict, notes: l
     return tree
 
 
+class _SplitHandler(ast.NodeTransformer):
+    """`except Exception as ex:` whose body starts with an `if isinstance(ex, A): X elif isinstance(ex, B): Y else: Z` chain
+    followed by a common TAIL is the same as `except A as ex: X; TAIL` / `except B as ex: Y; TAIL` / `except Exception as ex: Z; TAIL`
+    (clauses are tried in order, A and B being exception classes below Exception)."""
+
+    def visit_Try(self, node):
+        self.generic_visit(node)
+        new_handlers = []
+        for h in node.handlers:
+            split = self._split(h)
+            new_handlers.extend(split if split else [h])
+        node.handlers = new_handlers
+        return node
+
+    @staticmethod
+    def _split(h):
+        if h.name is None or _dotted(h.type) not in ("Exception", "BaseException") or not h.body or not isinstance(h.body[0], ast.If):
+            return None
+        arms = []
+        cur = h.body[0]
+        while True:
+            t = cur.test
+            if not (isinstance(t, ast.Call) and _dotted(t.func) == "isinstance" and len(t.args) == 2 and isinstance(t.args[0], ast.Name) and t.args[0].id == h.name and (_dotted(t.args[1]) or isinstance(t.args[1], ast.Tuple))):
+                return None
+            arms.append((t.args[1], cur.body))
+            if len(cur.orelse) == 1 and isinstance(cur.orelse[0], ast.If):
+                cur = cur.orelse[0]
+                continue
+            default = cur.orelse
+            break
+        tail = h.body[1:]
+        if any(isinstance(x, ast.Name) and x.id == h.name and isinstance(x.ctx, ast.Store) for b in h.body for x in ast.walk(b)):
+            return None
+        out = []
+        for typ, body in arms:
+            nh = ast.ExceptHandler(type=typ, name=h.name, body=list(body) + [copy.deepcopy(x) for x in tail] or [ast.Pass()])
+            ast.copy_location(nh, body[0] if body else h)
+            out.append(nh)
+        nh = ast.ExceptHandler(type=h.type, name=h.name, body=(list(default) + list(tail)) or [ast.Pass()])
+        ast.copy_location(nh, h)
+        out.append(nh)
+        for x in out:
+            ast.fix_missing_locations(x)
+        return out
+
+
 class _Walrus(ast.NodeTransformer):
     """`if (x := E) ...:` / `stmt(... (x := E) ...)`: when the assignment expression is the first thing the statement evaluates
     (and, for an `if`, sits in its test), it is hoisted: `x = E` followed by the statement using `x`."""
@@ -1471,9 +1619,8 @@ class _AliasFold(ast.NodeTransformer):
                     root = d.split(".")[0] if d else None
                     if not d or not (root in ("self", "cls") or (root in params and root not in stores)) or stores.get(tgt.id) != 1 or tgt.id in params:
                         continue
-                    if any(d == c or d.startswith(c + ".") or c.startswith(d + ".") for c in stored_chains):
-                        continue
-                    cands[tgt.id] = (st, val, blk)
+                    clash = [c for c in stored_chains if d == c or d.startswith(c + ".") or c.startswith(d + ".")]
+                    cands[tgt.id] = (st, val, blk, clash)
         if not cands:
             return fn
         # nested functions that capture the alias keep it
@@ -1491,10 +1638,20 @@ class _AliasFold(ast.NodeTransformer):
                     number(ch)
 
         number(fn)
-        for name, (st, val, blk) in list(cands.items()):
+        loops = [x for x in _walk_fn(fn) if isinstance(x, (ast.For, ast.AsyncFor, ast.While))]
+        for name, (st, val, blk, clash) in list(cands.items()):
             uses = [x for x in _walk_fn(fn) if isinstance(x, ast.Name) and x.id == name and isinstance(x.ctx, ast.Load)]
             if any(order.get(id(u), -1) <= order.get(id(st), 0) for u in uses):
                 cands.pop(name)
+                continue
+            if clash:
+                # the state is re-assigned in this function: fold only if every use of the alias comes before the first such
+                # store and that store is not inside a loop (so no use can follow a store at run time)
+                stores_ = [x for x in _walk_fn(fn) if isinstance(x, ast.Attribute) and isinstance(x.ctx, (ast.Store, ast.Del)) and _dotted(x) in clash]
+                first = min(order.get(id(x), 10**9) for x in stores_)
+                in_loop = any(any(y is x for y in ast.walk(lp)) for lp in loops for x in stores_)
+                if in_loop or any(order.get(id(u), 0) >= first for u in uses) or order.get(id(st), 0) >= first:
+                    cands.pop(name)
         if not cands:
             return fn
 
@@ -1507,7 +1664,7 @@ class _AliasFold(ast.NodeTransformer):
                     return new
                 return node
 
-        for name, (st, val, blk) in cands.items():
+        for name, (st, val, blk, _clash) in cands.items():
             blk.remove(st)
             if not blk:
                 blk.append(ast.copy_location(ast.Pass(), st))
@@ -1525,6 +1682,7 @@ def canonicalise(tree: ast.Module, modname: str, is_package: bool = False):
     if ref is not None:
         if "imports" in ref:
             tree = _respell_imports(tree, modname, ref["imports"], notes, is_package)
+        tree = move_back(tree, ref, notes)
         cur = census(tree)
         ren = detect_renames(cur, ref)
         if ren["module"] or any(v["methods"] or v["attrs"] for v in ren["classes"].values()):
@@ -1560,6 +1718,7 @@ def canonicalise(tree: ast.Module, modname: str, is_package: bool = False):
                 notes.append(f"inlined new helper {k}")
             tree = _drop_unreferenced(tree, {k: v[0] for k, v in helpers.items() if k in set(inl.done)})
     tree = _Walrus().visit(tree)
+    tree = _SplitHandler().visit(tree)
     tree = _MatchToIf().visit(tree)
     tree = _SuppressToTry().visit(tree)
     tree = _OrDefault().visit(tree)
